@@ -1195,6 +1195,13 @@ def _merge_single_markers(
     if marker1.name != marker2.name:
         return None
 
+    if isinstance(marker1.constraint, VersionConstraint) != isinstance(
+        marker2.constraint, VersionConstraint
+    ):
+        # e.g. 'platform_release >= "5"' and '"tegra" in platform_release':
+        # a version constraint and a string constraint cannot be merged
+        return None
+
     if merge_class == MultiMarker:
         merge_method = marker1.constraint.intersect
     else:
